@@ -249,8 +249,13 @@ class History:
                 write_csv(t, s)
                 lines = s.getvalue().split("\n")
                 rec["csv"] = [lines[2].split(";"), lines[3].split(";")] if not t.metadata.transposed else None
-                j = table_to_json_data(t)
-                rec["json"] = [[k, v["unit"]] for k, v in j["columns"].items()]
+                try:
+                    j = table_to_json_data(t)
+                    rec["json"] = [[k, v["unit"]] for k, v in j["columns"].items()]
+                except NotImplementedError:
+                    # an object column holding values JSON has no form for (e.g. Timedelta): a limit of
+                    # to_json_serializable on cell contents, not a statement about units
+                    rec["json"] = None
         except Exception as e:
             rec["writer_exc"] = f"{type(e).__name__}: {e}"[:200]
         self.checks.append(rec)
